@@ -50,6 +50,11 @@ func runC13(c *fw.Ctx) {
 			}
 		}
 	}
+	// ---- smoothed labels just below 1 (1 - 1e-9 .. 1 - 5e-8) on samples predicted with confidence (1 - p = 1e-11 .. 1e-7, inside the clipping
+	// interval): the weight 1 - t of the second term is tiny and exact, and that term is not small ----
+	for i := 0; i < c.Pick(400, 8000); i++ {
+		c.Case(func(k *fw.K) { c13NearOneTargets(k) })
+	}
 	// ---- (ii): upstream programs ----
 	for i := 0; i < c.Pick(6000, 400000); i++ {
 		c.Case(func(k *fw.K) { c13Upstream(k) })
@@ -417,4 +422,52 @@ func allHard(t *ref.T) bool {
 		}
 	}
 	return true
+}
+
+// c13NearOneTargets: see the call site. 1 - t and 1 - p are exact in floating point (both operands lie in [0.5, 2]), so
+// ((1-t)/(1-p) - t/p)/N is computed here with two roundings per term; the comparison is relative to the size of the two terms.
+func c13NearOneTargets(k *fw.K) {
+	r := k.Rng
+	b := 1 + r.Intn(4)
+	p, t := ref.Zeros([]int{b}), ref.Zeros([]int{b})
+	for i := range p.Data {
+		t.Data[i] = 1 - []float64{1e-9, 3e-9, 1e-8, 5e-8, 2e-10}[r.Intn(5)]
+		p.Data[i] = 1 - math.Pow(10, -7-4*r.Float64())
+		if r.Intn(4) == 0 { // the mirror image: a label just above 0 on a sample predicted close to 0
+			t.Data[i], p.Data[i] = 1-t.Data[i], 1-p.Data[i]
+		}
+	}
+	k.Case = lossCase{Loss: "bce", Pred: p, Target: t}
+	k.Key("bce/near-one-targets/%d", b)
+	k.Count("near_one_target_cases", 1)
+	rp := rt.MustLeaf(p, true)
+	var err error
+	if pn := call(func() {
+		var l tensor.Tensor
+		if l, err = lossObj("bce").Compute(rp, rt.MustLeaf(t, false)); err == nil {
+			err = tensor.BackPropagate(l)
+		}
+	}); pn != nil || err != nil {
+		k.Failf("bce Compute/BackPropagate: panic=%v err=%v", pn, err)
+		return
+	}
+	g := rp.Gradient()
+	if g == nil {
+		k.Failf("the tracked prediction received no gradient")
+		return
+	}
+	got, err := rt.Read(g)
+	if err != nil || len(got.Data) != b {
+		k.Failf("gradient unreadable: %v", err)
+		return
+	}
+	for i := range got.Data {
+		pv, tv := p.Data[i], t.Data[i]
+		t1, t2 := (1-tv)/(1-pv), tv/pv
+		want := (t1 - t2) / float64(b)
+		if tol := 1e-13 + 1e-9*(math.Abs(t1)+math.Abs(t2))/float64(b); math.Abs(got.Data[i]-want) > tol {
+			k.Failf("bce gradient element %d = %v, the analytic derivative ((1-t)/(1-p) - t/p)/N is %v (1-t = %v, 1-p = %v, N %d; tolerance %v)", i, got.Data[i], want, 1-tv, 1-pv, b, tol)
+			return
+		}
+	}
 }
